@@ -68,6 +68,8 @@ def model_arg(fn, a):
         present.add(kl); mdb.append([k, me(e)])
     if fn in (1, 2, 3):
         return [mdb, me(nextra[0])] + a[2:]
+    if fn in (6, 8) and a[1] == NO_CITATIONS:
+        return [mdb, [[42]]] + a[2:]              # citations=None means every entry, like ['*']
     if fn == 10:
         return [mdb, a[1], a[2], norm(E2E_FIELDS)]     # (the style index a[3] is not the model's business)
     return [mdb] + a[1:]
@@ -257,7 +259,8 @@ def impl_py_run(a, strict=False):
     bd, _ = build(a[0])
     fields = [S(f) for f in a[3]]
     def run():
-        fb = make_style(fields, a[2]).format_bibliography(bd, [S(c) for c in a[1]])
+        cits = None if a[1] == NO_CITATIONS else [S(c) for c in a[1]]      # format_bibliography(bib_data): all entries
+        fb = make_style(fields, a[2]).format_bibliography(bd, cits)
         obs = []
         for fe in fb:
             parts = str(fe.text).split('|') if fields else []
@@ -288,6 +291,7 @@ def impl_py_run(a, strict=False):
 
 RUN_SCH = ('T', DB_SCH, ('L', 'S'), 'I', ('L', 'S'))
 
+NO_CITATIONS = [[60, 78, 111, 110, 101, 62]]     # ['<None>']: call format_bibliography without a citation list
 E2E_FIELDS = ['title', 'year', 'note']
 E2E_STYLES = ['unsrt', 'plain', 'alpha', 'unsrtalpha']
 def e2e_norm(db):
@@ -506,6 +510,8 @@ def oracle(fn, a, out):
         return None
     if out == [2]:
         return 'crashed with a foreign exception instead of reporting'
+    if fn in (6, 8) and a[1] == NO_CITATIONS:
+        a = [a[0], [[42]]] + a[2:]
     cited = cited_entries(ndb, table, a[1])
     cited_dangling = any(dangling(table, e) for e in cited)
     any_dangling = any(dangling(table, e) for e in table.values())
@@ -666,7 +672,7 @@ def gen(tier, rng):
             engines = n <= 2 or (not quick) or idx % 4 == 0
             if engines:
                 yield ('exhaustive_engines', 5, [db, ['*'], 2, ALLF])
-                yield ('exhaustive_engines', 6, [db, ['*'], 2, ALLF])
+                yield ('exhaustive_engines', 6, [db, ['*'] if idx % 2 else ['<None>'], 2, ALLF])
             if n <= 2 or idx % 8 == 0:
                 e = db[idx % n][1]
                 yield ('exhaustive_glue', 2, [db, e, 'title']); yield ('exhaustive_glue', 2, [db, e, 'crossref'])
@@ -848,8 +854,43 @@ def vm_crosscheck(ck, tier, rng):
     return {'name': 'extraction_vs_vm_compute', 'evaluations': len(cases), 'failures': fails[:3],
             'info': 'the extracted OCaml runner and vm_compute inside Coq agree on dispatch for %d random cases' % len(cases)}
 
+ANCHORED = [('pybtex/database/__init__.py', 500, 534), ('pybtex/database/__init__.py', 246, 271),
+            ('pybtex/bibtex/interpreter.py', 97, 132), ('pybtex/style/template.py', 252, 267),
+            ('pybtex/style/formatting/__init__.py', 53, 96)]
+
+def line_coverage(ck, tier, rng):
+    """executed-line percentage of the anchored line ranges under a sample of the generated cases
+    (measures generator blind spots; thorough tier only)"""
+    import os, coverage
+    files = sorted(set(os.path.join(REPO, f) for f, _, _ in ANCHORED))
+    cov = coverage.Coverage(include=files, data_file=None)
+    r = random.Random(rng.random())
+    sample = []
+    for k, (stream, fn, a) in enumerate(gen('quick', r)):
+        if k % 7 == 0 or stream in ('pinned', 'end_to_end', 'long'):
+            sample.append((fn, norm(a)))
+    cov.start()
+    try:
+        for fn, a in sample:
+            FUNCS[fn][1](a)
+    finally:
+        cov.stop()
+    info, fails = {}, []
+    for f, lo, hi in ANCHORED:
+        _, stmts, _, missing, _ = cov.analysis2(os.path.join(REPO, f))
+        src = open(os.path.join(REPO, f)).read().split('\n')
+        isdef = lambda l: src[l - 1].strip().startswith(('def ', 'class ', '@'))      # executed at import time
+        inr = [l for l in stmts if lo <= l <= hi and not isdef(l)]
+        miss = [l for l in missing if lo <= l <= hi and not isdef(l)]
+        info['%s:%d-%d' % (f, lo, hi)] = {'statements': len(inr), 'executed': len(inr) - len(miss),
+                                           'not_executed': [[l, src[l - 1].strip()] for l in miss]}
+    # a blind spot of the generators is information, not a violation of the property
+    return {'name': 'impl_line_coverage', 'evaluations': len(sample), 'failures': fails, 'info': info}
+
 def extra_checks(ck, tier, rng):
     yield vm_crosscheck(ck, tier, rng)
+    if tier == 'thorough':
+        yield line_coverage(ck, tier, rng)
     # the oracle joins person names as given: every name the generators use must be its own str()
     from pybtex.database import Person
     names = ['E%d' % i for i in range(0, 200)] + ['Knuth, D%d' % i for i in range(0, 200)]
